@@ -1,5 +1,6 @@
 import Bgpfu.Drive.Framing
 import Bgpfu.Drive.Xml
+import Bgpfu.Drive.Session
 import Bgpfu.Drive.Daemon
 import Bgpfu.Drive.Writers
 import Bgpfu.Drive.Policy
@@ -11,6 +12,7 @@ def dispatch (ws : List String) : String :=
     match ws with
     | "frame" :: rest => Framing.drive rest
     | "xml" :: rest => Xml.drive rest
+    | "sess" :: rest => Session.drive rest
     | "daemon" :: rest => Daemon.drive rest
     | "ser" :: rest => Writers.drive rest
     | "plan" :: rest => Policy.drive rest
